@@ -328,7 +328,7 @@ class FunctionReport:
 MAX_PATHS = 4000
 
 
-def verify_function(world, contract, report=None, only_cfg=None, scope=None):
+def verify_function(world, contract, report=None, only_cfg=None, scope=None, deadline=None):
     """generate all obligations of one function under contract (all structural configs, all paths)"""
     t0 = time.time()
     rep = report or FunctionReport(contract.qualname)
@@ -347,6 +347,9 @@ def verify_function(world, contract, report=None, only_cfg=None, scope=None):
         work = [[]]
         npaths = 0
         while work:
+            if deadline is not None and time.time() > deadline:
+                rep.unsupported.append((cname, 'path exploration stopped at its time budget (%d paths pending)' % len(work)))
+                break
             prefix = work.pop()
             npaths += 1
             if npaths > MAX_PATHS:
@@ -479,7 +482,7 @@ class FragmentContract(Contract):
         return []
 
 
-def verify_fragment(world, contract, report=None, only_cfg=None, scope=None):
+def verify_fragment(world, contract, report=None, only_cfg=None, scope=None, deadline=None):
     from .interp import Frame, loop_ordinals, _Continue, _Break, _Return
     import ast as _ast
     t0 = time.time()
@@ -528,6 +531,9 @@ def verify_fragment(world, contract, report=None, only_cfg=None, scope=None):
         rep.configs.append(cname)
         work = [[]]
         while work:
+            if deadline is not None and time.time() > deadline:
+                rep.unsupported.append((cname, 'path exploration stopped at its time budget (%d paths pending)' % len(work)))
+                break
             prefix = work.pop()
             ctx = Ctx(prefix, fname='%s[%s]' % (short, cname), opts={'small_scope': scope is not None})
             ctx.modifies = set(contract.modifies)
